@@ -659,6 +659,21 @@ func extraThreaded(c *Check, a *Anchors) {
 			}
 		}
 		if extra == nil {
+			// ... or yielded by an iterator: `for extra := range forLoopExtras(...)`
+			for _, e := range []ast.Expr{r.Key, r.Value} {
+				if e == nil {
+					continue
+				}
+				if v := varOf(info, e); v != nil {
+					if m, isMap := v.Type().Underlying().(*types.Map); isMap && types.TypeString(m.Key(), nil) == "string" {
+						if _, isCall := ast.Unparen(r.X).(*ast.CallExpr); isCall {
+							extra = v
+						}
+					}
+				}
+			}
+		}
+		if extra == nil {
 			return true
 		}
 		inspectBody(r.Body, func(m ast.Node) bool {
